@@ -1,0 +1,17 @@
+//go:build verif
+
+package cleaner
+
+// Hook for the external verification harness (/verif); only built with
+// the "verif" build tag. Read-only.
+
+// VerifState returns the use count of the IdleInvoker, whether a
+// cleaning is marked as in progress, and whether the lock could be
+// acquired without blocking (the first two are only meaningful if so).
+func (i *IdleInvoker) VerifState() (useCount uint, cleaning, lockFree bool) {
+	if !i.lock.TryLock() {
+		return 0, false, false
+	}
+	defer i.lock.Unlock()
+	return i.useCount, i.wakeup != nil, true
+}
